@@ -1010,6 +1010,9 @@ class Interp:
             return PyList(b.items * a)
         if op == '%' and isinstance(a, str):
             return self.opaque_str('fmt')
+        if op == '+' and (isinstance(a, Struct) or isinstance(b, Struct)) and \
+                all(isinstance(x, (str, Struct)) or kind_of(x) == 'str' for x in (a, b)):
+            return Struct('str.concat', (a, b))
         if op == '+' and (kind_of(a) == 'str' and kind_of(b) == 'str'):
             return mk(z3.Concat(to_term(a), to_term(b)), 'str')
         if a is None or b is None or isinstance(a, (PyObj, EnumMember)) or isinstance(b, (PyObj, EnumMember)):
@@ -1108,6 +1111,8 @@ class Interp:
                 return mk(s.t == o, 'bool')
             if isinstance(o, bool) or s.k == 'bool':
                 return False
+            if s.k == 'str' and isinstance(o, str):     # identity of equal strings is unspecified: equality
+                return mk(s.t == z3.StringVal(o), 'bool')
             raise Unsupported('`is` between symbolic scalar and %r' % (o,))
         return a is b
 
@@ -2061,9 +2066,18 @@ class Interp:
             return self.native_call(fn, args, kwargs)
         raise Unsupported('call of %r' % (fn,))
 
+    def wrap_native(self, v):
+        if isinstance(v, list):
+            return PyList([self.wrap_native(x) for x in v])
+        if isinstance(v, dict):
+            return PyDict({k: self.wrap_native(x) for k, x in v.items()})
+        if isinstance(v, set):
+            return PySet(v)
+        return v
+
     def native_call(self, fn, args, kwargs):
         try:
-            return fn(*args, **kwargs)
+            return self.wrap_native(fn(*args, **kwargs))
         except (ValueError, TypeError, KeyError, IndexError, ZeroDivisionError, AttributeError, OverflowError) as e:
             self.raise_builtin(type(e).__name__, *e.args)
 
